@@ -365,4 +365,39 @@ theorem step_scale_shrinks_backward (maxStep h tol ε : ℝ) (bb : List ℝ) (ht
   rw [step_scale_law, if_pos (lt_trans hneg hmax)]
   exact ⟨by nlinarith, hneg⟩
 
+/-! ## Non-vacuity: the hypotheses of the theorems above are met by concrete, non-trivial values -/
+
+example : butcher "rk4" = some butcher_rk4 := rfl
+example : butcher "dopri54" = some butcher_dopri54 := rfl
+example : butcher "rk5" = none := rfl
+example : ∃ bs, butcher_rkf54.bstar = some bs ∧ bs.length = 6 := ⟨_, rfl, rfl⟩
+example : ∃ bs, butcher_dopri54.bstar = some bs ∧ bs.length = 7 := ⟨_, rfl, rfl⟩
+example : butcher_rk4.bstar = none ∧ butcher_euler.bstar = none := ⟨rfl, rfl⟩
+/-- the embedded weights are *not* of order 5 (the error estimate `b − b_star` is not identically trivial): the
+condition of the bushy tree with 5 vertices fails for `b_star` of RKF54 -/
+example : ∃ bs, butcher_rkf54.bstar = some bs ∧ ¬ OrderCond butcher_rkf54 bs t5a := by
+  refine ⟨_, rfl, ?_⟩
+  simp only [OrderCond, butcher_rkf54, t5a, t4a, t3a, t2, phi, padRows, List.length, List.map, List.zipWith, dot, T.gamma, T.order]
+  norm_num
+/-- RK4 is not of order 5 -/
+example : ¬ OrderCond butcher_rk4 butcher_rk4.b t5a := by
+  simp only [OrderCond, butcher_rk4, t5a, t4a, t3a, t2, phi, padRows, List.length, List.map, List.zipWith, dot, T.gamma, T.order]
+  norm_num
+/-- an adaptive step that is accepted: a field at rest, estimate 0 ≤ tol -/
+example : makeStep (fun _ _ => [0, 0, 0]) butcher_rkf54 60 (1 / 1000) 0 [1, 2, 3] maxIter 60
+    = some (60, rkOnce (fun _ _ => [0, 0, 0]) butcher_rkf54 0 [1, 2, 3] 60) := by
+  refine accepted_at_once _ _ _ rfl _ _ _ _ 9 60 ?_
+  simp [errEst, rkKs, rkStages, lincomb, butcher_rkf54, vsub, smul, vadd, vnorm, sumsq]
+example : 0 < stepScale 60 60 (1 / 1000) 1 butcher_rkf54.b ∧ stepScale 60 60 (1 / 1000) 1 butcher_rkf54.b < 60 :=
+  step_scale_shrinks _ _ _ _ _ (by norm_num) (by norm_num) (by norm_num) (by norm_num) (by simp [butcher_rkf54])
+example : (-60 : ℝ) < stepScale 60 (-60) (1 / 1000) 1 butcher_dopri54.b ∧ stepScale 60 (-60) (1 / 1000) 1 butcher_dopri54.b < 0 :=
+  step_scale_shrinks_backward _ _ _ _ _ (by norm_num) (by norm_num) (by norm_num) (by norm_num) (by simp [butcher_dopri54])
+/-- the force on a satellite at (7000 km, 0, 0) points to the body at the origin -/
+example : bodyAccel 8 [0, 0, 0, 0, 0, 0] [2, 0, 0, 0, 1, 0] = [-2, 0, 0] := by
+  rw [accel_newton]
+  have : Real.sqrt ((0 - 2) * (0 - 2) + ((0 - 0) * (0 - 0) + ((0 - 0) * (0 - 0) + 0))) = 2 := by
+    rw [show ((0 : ℝ) - 2) * (0 - 2) + ((0 - 0) * (0 - 0) + ((0 - 0) * (0 - 0) + 0)) = 2 ^ 2 by norm_num]
+    exact Real.sqrt_sq (by norm_num)
+  rw [this]; norm_num
+
 end BeyondVerif.C06
